@@ -17,6 +17,7 @@ import (
 	"github.com/cloudflare/circl/blindsign/blindrsa/partiallyblindrsa"
 	"github.com/cloudflare/circl/dh/csidh"
 	bls12381 "github.com/cloudflare/circl/ecc/bls12381"
+	"github.com/cloudflare/circl/ecc/p384"
 	"github.com/cloudflare/circl/group"
 	"github.com/cloudflare/circl/hpke"
 	kemschemes "github.com/cloudflare/circl/kem/schemes"
@@ -24,6 +25,7 @@ import (
 	"github.com/cloudflare/circl/sign/bls"
 	signschemes "github.com/cloudflare/circl/sign/schemes"
 	"github.com/cloudflare/circl/simd/keccakf1600"
+	tssrsa "github.com/cloudflare/circl/tss/rsa"
 )
 
 // coldFam: callers that share NO object — each task sets up a system of its own (an
@@ -48,7 +50,7 @@ func coldFam() famDef {
 	groups := []group.Group{group.P256, group.P384, group.P521, group.Ristretto255}
 	suites := []oprf.Suite{oprf.SuiteRistretto255, oprf.SuiteP256, oprf.SuiteP384}
 	kems := []hpke.KEM{hpke.KEM_X25519_HKDF_SHA256, hpke.KEM_X448_HKDF_SHA512, hpke.KEM_P256_HKDF_SHA256, hpke.KEM_X25519_KYBER768_DRAFT00}
-	return famDef{name: "cold", cold: true, late: true, kinds: []string{"tkn20", "bls", "group", "kem", "sign", "oprf", "hpke", "pairing", "keccak.x2", "keccak.x4", "tkn20"}, build: func(seed uint64) *shared {
+	return famDef{name: "cold", cold: true, late: true, kinds: []string{"tkn20", "bls", "group", "kem", "sign", "oprf", "hpke", "pairing", "keccak.x2", "keccak.x4", "p384", "tss", "tkn20"}, build: func(seed uint64) *shared {
 		return &shared{ops: map[string]func(uint64) []byte{
 			"tkn20": func(a uint64) []byte {
 				pk, msk, err := tkn20.Setup(core.NewStream(seed + 100 + a))
@@ -204,6 +206,44 @@ func coldFam() famDef {
 					out = binary.LittleEndian.AppendUint64(out, x)
 				}
 				return digest(out)
+			},
+			// P-384 with operands of the task's own: the curve keeps precomputed tables of
+			// multiples of the generator at package level
+			"p384": func(a uint64) []byte {
+				c := p384.P384()
+				r := core.NewPRNG(seed + 1300 + a)
+				k, m, n := r.Bytes(48), r.Bytes(48), r.Bytes(48)
+				qx, qy := c.ScalarBaseMult(k)
+				x1, y1 := c.CombinedMult(qx, qy, m, n)
+				x2, y2 := c.ScalarMult(qx, qy, n)
+				x3, y3 := c.Add(x1, y1, x2, y2)
+				return digest(x1.Bytes(), y1.Bytes(), x2.Bytes(), y2.Bytes(), x3.Bytes(), y3.Bytes())
+			},
+			// threshold RSA with a deal of the task's own, of another size than the other tasks'
+			"tss": func(a uint64) []byte {
+				key := fixtures.RSAKey("std-1024-a")
+				l := uint(3 + 2*(a%3))
+				shares, err := tssrsa.Deal(core.NewStream(seed+1400+a), l, 2, key, a%2 == 0)
+				if err != nil {
+					return []byte("deal-err")
+				}
+				ph, err := tssrsa.PadHash(&tssrsa.PKCS1v15Padder{}, crypto.SHA256, &key.PublicKey, msgOf(a))
+				if err != nil {
+					return []byte("pad-err")
+				}
+				var sss []tssrsa.SignShare
+				for i := 0; i < 2; i++ {
+					ss, err := shares[i].Sign(core.NewStream(seed+1500+a), &key.PublicKey, ph, false)
+					if err != nil {
+						return []byte("sign-err")
+					}
+					sss = append(sss, ss)
+				}
+				sig, err := tssrsa.CombineSignShares(&key.PublicKey, sss, ph)
+				if err != nil {
+					return []byte("combine-err: " + err.Error())
+				}
+				return digest(sig)
 			},
 			"pairing": func(a uint64) []byte {
 				var k bls12381.Scalar
